@@ -225,6 +225,17 @@ def run(ctx):
         okp = not bad and len(muls) == 1
         why = 'the integer part is converted to floating point before scaling (%s): sizes above 2^53 lose their low digits' % (nf(e)) if bad else 'integer_part * unit_scale is not computed in 64-bit integer arithmetic'
     ctx.check(okp, R, 'parse_size|integer-part-exact', rets[0] if rets else psz, 'integer_part * unit_scale in integer arithmetic, plus the truncated fractional contribution', why)
+    # unit_scale reaches 2^60: the only 64-bit integer product it may take part in is the one with
+    # integer_part (which overflows exactly when the size itself does not fit); the fractional
+    # contribution must be scaled in floating point
+    wide = []
+    for x in walk(body_of(psz)):
+        if x.get('kind') in ('BinaryOperator', 'CompoundAssignOperator') and x.get('opcode') in ('*', '*=') and (int_type_info(dtype(x)) or (0,))[0] == 64:
+            ops = [nf(x['inner'][0]), nf(x['inner'][1])]
+            if 'unit_scale' in ops and sorted(ops) != ['integer_part', 'unit_scale'] and not all(o.lstrip('-').isdigit() or o == 'unit_scale' for o in ops):
+                wide.append(x)
+    ctx.check(not wide, R, 'parse_size|fraction-scaled-in-floating-point', wide[0] if wide else psz, 'no 64-bit integer product of unit_scale with anything but integer_part',
+              '`%s` multiplies the unit scale (up to 2^60) by another unbounded integer in 64-bit arithmetic: it wraps for the E unit (e.g. "1.50 EB")' % (src_text(wide[0], 60) if wide else ''))
     dg = [lp for lp in walk(body_of(psz)) if lp.get('kind') == 'ForStmt']
     acc = [nf(x) for lp in dg for x in walk(lp) if x.get('kind') == 'BinaryOperator' and x.get('opcode') == '=' and nf(x['inner'][0]) == 'integer_part']
     ctx.check(acc == ['(integer_part = ((*str - 48) + (10 * integer_part)))'], R, 'parse_size|digit-accumulation', psz, 'integer_part = integer_part * 10 + digit', 'digit accumulation is %s' % acc)
